@@ -7,6 +7,47 @@ use super::*;
 use crate::k_kcommon::*;
 use std::io::Cursor;
 
+
+/// Association-list model of the sheet table (`BTreeMap<String, _>` in the real struct): the overlay substitutes this
+/// type for the BTreeMap of the `sheets` field (declared substitution). A BTreeMap leaf node is ~1.5 KB; with blocks that
+/// large the heap model loses field sensitivity and a single lookup does not finish in 300 s. Same observable API subset.
+pub(crate) struct KMap<K, V>(pub(crate) Vec<(K, V)>);
+impl<K: Ord, V> KMap<K, V> {
+    pub(crate) fn new() -> Self {
+        KMap(Vec::new())
+    }
+    pub(crate) fn insert(&mut self, k: K, v: V) -> Option<V> {
+        let mut i = 0;
+        while i < self.0.len() {
+            if self.0[i].0 == k {
+                return Some(std::mem::replace(&mut self.0[i].1, v));
+            }
+            i += 1;
+        }
+        self.0.push((k, v));
+        None
+    }
+    pub(crate) fn get<Q: ?Sized + Ord>(&self, k: &Q) -> Option<&V>
+    where
+        K: std::borrow::Borrow<Q>,
+    {
+        let mut i = 0;
+        while i < self.0.len() {
+            if self.0[i].0.borrow() == k {
+                return Some(&self.0[i].1);
+            }
+            i += 1;
+        }
+        None
+    }
+    pub(crate) fn iter(&self) -> impl Iterator<Item = (&K, &V)> {
+        self.0.iter().map(|(k, v)| (k, v))
+    }
+    pub(crate) fn len(&self) -> usize {
+        self.0.len()
+    }
+}
+
 const R0: u32 = 2;
 const C0: u32 = 1;
 
@@ -18,7 +59,7 @@ fn mk(vals: &[i64; 4], used: &[bool; 4], header: HeaderRow) -> Xls<Cursor<&'stat
         i += 1;
     }
     let range = Range { start: (R0, C0), end: (R0 + 1, C0 + 1), inner };
-    let mut sheets = BTreeMap::new();
+    let mut sheets = KMap::new();
     sheets.insert(
         String::from("S"),
         SheetData { range, formula: Range::default(), merge_cells: Vec::new() },
